@@ -6,7 +6,8 @@ namespace Conv
 open ConvSpec
 
 theorem flushBuffer_proj (pm maps : List MapAdd) (q : List (Nat × MapAdd)) (us : List USample) :
-    (flushBuffer pm maps q us).map (fun o => (o.1, o.2.t, o.2.weight)) = us.map (fun u => (u.th, u.t, 1)) := by
+    (flushBuffer pm maps q us).map (fun o => (o.1, o.2.t, o.2.weight, o.2.synth)) =
+      us.map (fun u => (u.th, u.t, u.weight, u.synth)) := by
   induction us generalizing maps q with
   | nil => rfl
   | cons u rest ih =>
@@ -27,12 +28,13 @@ theorem flatMap_filter_nonempty {γ} (f : USample → γ) (procs : List (Nat × 
     | cons x xs => simp [hs]
 
 theorem flushAll_proj (s : St) :
-    (flushAll s).map (fun o => (o.1, o.2.t, o.2.weight)) = (buffered s).map (fun u => (u.th, u.t, 1)) := by
+    (flushAll s).map (fun o => (o.1, o.2.t, o.2.weight, o.2.synth)) =
+      (buffered s).map (fun u => (u.th, u.t, u.weight, u.synth)) := by
   unfold flushAll
   rw [List.map_flatMap]
   have : (fun b : List USample × List (Nat × MapAdd) × Nat =>
-      (flushBuffer (perfMapTable s.cfg b.2.2) [] b.2.1 b.1).map (fun o => (o.1, o.2.t, o.2.weight))) =
-      (fun b => b.1.map (fun u => (u.th, u.t, 1))) := by
+      (flushBuffer (perfMapTable s.cfg b.2.2) [] b.2.1 b.1).map (fun o => (o.1, o.2.t, o.2.weight, o.2.synth))) =
+      (fun b => b.1.map (fun u => (u.th, u.t, u.weight, u.synth))) := by
     funext b; exact flushBuffer_proj (perfMapTable s.cfg b.2.2) [] b.2.1 b.1
   rw [this]
   unfold allBuffers buffered
@@ -40,34 +42,34 @@ theorem flushAll_proj (s : St) :
   congr 1
   rw [List.map_flatMap]
 
-/-- the views, keyed by anything computable from the entry index, time and weight, list exactly the
-buffered samples -/
+/-- the views, keyed by anything computable from the entry index, time, weight and the synthesized flag, list
+exactly the buffered samples -/
 theorem views_perm_buffered {γ} (s : St) (hinv : InvA s)
     (hsok : ∀ u ∈ buffered s, u.th < (tsk s.tents).length)
-    (F : View → OutSample → γ) (G : Nat → Nat → Nat → γ)
+    (F : View → OutSample → γ) (G : Nat → Nat → Nat → Bool → γ)
     (hFG : ∀ i te v, s.tents[i]? = some te → viewOf s (flushAll s) i te = some v →
-      ∀ o, F v o = G i o.t o.weight) :
+      ∀ o, F v o = G i o.t o.weight o.synth) :
     List.Perm ((views s).flatMap (fun v => v.samples.map (F v)))
-      ((buffered s).map (fun u => G u.th u.t 1)) := by
+      ((buffered s).map (fun u => G u.th u.t u.weight u.synth)) := by
   have hv : ∀ te ∈ s.tents, te.proc < s.pents.length := by
     intro te hte
     have := hinv.tents (te.proc, te.tid) (List.mem_map_of_mem (f := fun e : TEntry => (e.proc, e.tid)) hte)
     simpa [psk] using this
   have hout : ∀ o ∈ flushAll s, o.1 < s.tents.length := by
     intro o ho
-    have hm : (o.1, o.2.t, o.2.weight) ∈ (flushAll s).map (fun o => (o.1, o.2.t, o.2.weight)) :=
-      List.mem_map_of_mem (f := fun o : Nat × OutSample => (o.1, o.2.t, o.2.weight)) ho
+    have hm : (o.1, o.2.t, o.2.weight, o.2.synth) ∈ (flushAll s).map (fun o => (o.1, o.2.t, o.2.weight, o.2.synth)) :=
+      List.mem_map_of_mem (f := fun o : Nat × OutSample => (o.1, o.2.t, o.2.weight, o.2.synth)) ho
     rw [flushAll_proj] at hm
     obtain ⟨u, hu, heq⟩ := List.mem_map.mp hm
     have h1 : u.th = o.1 := congrArg Prod.fst heq
     have := hsok u hu
     simp only [tsk, List.length_map] at this
     omega
-  have h := views_perm s (flushAll s) F (fun i o => G i o.t o.weight) hv hout hFG
+  have h := views_perm s (flushAll s) F (fun i o => G i o.t o.weight o.synth) hv hout hFG
   unfold views
   refine h.trans (List.Perm.of_eq ?_)
-  have : (flushAll s).map (fun o => G o.1 o.2.t o.2.weight) =
-      ((flushAll s).map (fun o => (o.1, o.2.t, o.2.weight))).map (fun x => G x.1 x.2.1 x.2.2) := by
+  have : (flushAll s).map (fun o => G o.1 o.2.t o.2.weight o.2.synth) =
+      ((flushAll s).map (fun o => (o.1, o.2.t, o.2.weight, o.2.synth))).map (fun x => G x.1 x.2.1 x.2.2.1 x.2.2.2) := by
     rw [List.map_map]; rfl
   rw [this, flushAll_proj, List.map_map]
   rfl
